@@ -186,7 +186,7 @@ def facetsC07Video (codec : VCodec) (w h : Nat) (t : Track) (key : Bytes) : Face
     facet ((be e.pre 24 2, be e.pre 26 2) == (w, h)) "entry-dims" ++
     (match e.kids with
      | [cfg] =>
-       let us := (units key)
+       let us := (unitsFast key)
        match codec with
        | .h264 =>
          (match strictAvcC cfg.pre with
